@@ -11,11 +11,18 @@ A case is one wrapped function plus everything observed about it:
 A case with an 'ops' field instead of injected/expected is a FunctionBuilder history:
 from_func(f), then ['r', x] = remove_arg(x), ['a', z, d] = add_arg(z[, d]), ['k', z, d] = add_arg(z[, d], kwonly=True),
 then body = 'return _call(<get_invocation_str()>)' and get_func().
+A case with a 'session' field is several uses in one process (on a fresh copy of boltons.funcutils): F[0] = the function,
+F[1] = the sibling if 'sib' is given ({'defaults','kwdefaults','ann','ret','doc','module'}: same name and parameter names),
+then whatever the steps build; a step is ['w', t, injected, expected, opts, form[, share]] (wraps of F[t]; share=1: with the
+user wrapper of the previous wraps step), ['b', t, ops] (builder history on F[t]), ['k', t, name, value|None] /
+['n', t, name, value|None] (the user sets / pops an entry of F[t].__kwdefaults__ / __annotations__ in place).  Every
+function is observed after every step; the calls are made on every built function at the end.
 Parameter `n` is spelled `p<n>` in the Python source; values (defaults, annotations, call arguments)
 are instances of `V` compared by identity and printed as their number.
 """
 import inspect
 import itertools
+import json
 import re
 
 from bv.common import Property, Failure, time_limit, exc_name, CaseTimeout
@@ -69,11 +76,12 @@ class Vals(dict):
 
 
 CURRENT = [Vals()]
+RET = 199       # what the user's wrapper returns when it does not pass the call on
 
 
 # parameter ids with a special spelling: the names the builder itself uses in the exec namespace
 SPECIAL = {90: '_call', 91: '_func', 92: '__call', 93: 'fn', 94: 'self', 95: 'args', 96: 'kwargs', 97: '\u00e9',
-           98: 'name', 99: 'body', 89: '_'}
+           98: 'name', 99: 'body', 89: '_', 88: 'match', 87: 'type', 86: 'case'}
 SPECIAL_REV = {v: k for k, v in SPECIAL.items()}
 FNAMES = {0: 'fn', 1: '_call', 2: '_func', 3: '<lambda>'}
 
@@ -107,8 +115,18 @@ KINDS = {inspect.Parameter.POSITIONAL_ONLY: 'po', POK: 'pk', inspect.Parameter.V
          inspect.Parameter.KEYWORD_ONLY: 'ko', inspect.Parameter.VAR_KEYWORD: 'vk'}
 
 
+# every case compiles its functions at a line offset of its own: code objects compare by VALUE, and two
+# cases must not look like "the same function again" to anything boltons might remember between them
+# (within a case the pristine twin - and a sibling with the same docstring - do have equal code objects)
+LINE_OFFSET = [0]
+
+
 def source_of(case):
     """Python source of the wrapped function described by the case (uses tables D = defaults, A = annotations)"""
+    return '\n' * LINE_OFFSET[0] + source_text(case)
+
+
+def source_text(case):
     args, dfl = case['args'], case['defaults']
     ann = dict(map(tuple, case['ann']))
     kwd = dict(map(tuple, case['kwdefaults']))
@@ -193,27 +211,41 @@ class C13(Property):
     THOROUGH_BUDGET_S = 600
     RULE = ('a case is one function signature (positional-or-keyword parameters with a suffix of defaults, '
             '*args, keyword-only parameters with/without defaults, **kw, annotations, return annotation, '
-            'sync/async, docstring or none, module or none) plus EITHER an injected list, an expected list, the '
-            'options and the spelling of the request (list / str / dict / update_wrapper) OR a history of '
-            'FunctionBuilder.remove_arg / add_arg(kwonly) calls, and a list of call shapes (k positional values x '
-            'a subset of keyword names incl. unknown ones); every call is made on the wrapped function directly '
-            'and through the built function. Exhaustive: all signatures with <=3 positional / <=2 keyword-only '
-            '(thorough <=4 / <=2) x {plain, every single injected name, missing name, expected with/without '
-            'default, clashes, inject+expect} x all call shapes; all builder histories of <=2 ops over a 9-12 '
-            'letter alphabet on signatures with <=2 positional; parameters/functions spelled _call, _func, __call; '
-            'sync and async for every combination; by a rotating counter: annotations, docstring, module, falsy / None '
-            '/ always-equal default values (compared by identity), decorators stacked 2-3 deep, the same request made '
-            'twice, six spellings of injected/expected; a lambda; random: up to 6 positional / 4 keyword-only, '
-            'multi-step injected+expected, histories of <=6 ops, stacks <=4. '
-            'Non-trivial = the builder produced a function and either the call list contains both an accepted '
-            'and a rejected call or the signature was modified; distinct = distinct case.')
+            'sync/async, docstring or none, module or none) plus ONE OF: (a) an injected list, an expected list, the '
+            'options and the spelling of the request (list / str / dict / update_wrapper / tuple+list pairs / iterators); '
+            '(b) a history of FunctionBuilder.remove_arg / add_arg(kwonly) calls; (c) a SESSION: a list of steps run in '
+            'one process on a fresh copy of the module, each aimed at any function existing at that moment (the '
+            'function, an optional sibling with the same name, parameter names and - half of the time - an equal code '
+            'object but other defaults / annotations, or anything built by an earlier step): a wraps / update_wrapper '
+            'request, a builder history, or an in-place edit by the user of a built function\'s __kwdefaults__ / '
+            '__annotations__; equal requests of a session pass the very same list / dict object, some steps reuse the '
+            'user wrapper of the previous step, some requests raise after the builder was already edited; every '
+            'function is observed after EVERY step. And a list of call shapes (k positional values x a subset of '
+            'keyword names incl. unknown ones); every call is made on the wrapped function (a pristine twin) directly '
+            'and through the built function(s). Order of generation (small adversarial families first): names the '
+            'builder itself uses (_call, _func, __call, soft keywords) as parameter / function names; every spelling x '
+            'every special default value (None, falsy, always-equal, no truth value); sessions - for 7 signatures every '
+            'ordered pair of ~20 requests on the same function followed by a plain wraps, chains x edits x re-wraps, '
+            'sibling interleavings; then exhaustive: all signatures with <=3 positional / <=2 keyword-only (thorough '
+            '<=4 / <=2) x {plain, every single injected name, missing name, expected with/without default, clashes, '
+            'inject+expect} x all call shapes, sync and async; all builder histories of <=2 ops over a 9-12 letter '
+            'alphabet on signatures with <=2 positional; by a rotating counter: annotations, docstring, module, special '
+            'default values (compared by identity), decorators stacked 2-3 deep, the same request made twice, six '
+            'spellings; a lambda; random: up to 6 positional / 4 keyword-only, multi-step injected+expected, histories '
+            'of <=6 ops, stacks <=4, sessions of 2-7 steps. '
+            'Non-trivial = the builder produced a function and either the call list contains both an accepted and a '
+            'rejected call or the signature was modified, or (session) at least two steps with a function built; '
+            'distinct = distinct case.')
     ASSUMPTIONS = ['no positional-only parameters; the wrapped object is a plain function (no partial / '
                    'classmethod / builtin); names are abstract in the model - parameters / functions spelled like '
                    'the builder\'s own exec-namespace names (_call, _func) are exercised by the generators',
                    'values (defaults, annotations, arguments) are compared by identity',
                    'source text is modelled at the granularity of comma-separated items; the text of '
-                   'get_sig_str / get_invocation_str is compared character by character via __source__']
-    CORRESPONDENCE_NAME = 'C13.Driver (FunctionBuilder / update_wrapper / argument-binding model) vs boltons.funcutils.wraps'
+                   'get_sig_str / get_invocation_str is compared character by character via __source__',
+                   'sessions: single-threaded; a builder is not used again after get_func(); the user edits dicts of '
+                   'built functions only (what follows for functions built FROM an edited one is left open); the '
+                   'return value and the number of calls of the user\'s wrapper are judged by the oracle only']
+    CORRESPONDENCE_NAME = 'C13.Driver (FunctionBuilder / update_wrapper / argument-binding model; sessions on the heap model) vs boltons.funcutils.wraps'
 
     # ------------------------------------------------------------------ generation
     def base_sigs(self, maxpos, kwo_cfgs):
@@ -289,6 +321,14 @@ class C13(Property):
         else:
             kwo_cfgs = [((), ()), ((14,), ()), ((14,), ((14, 24),)), ((15, 14), ((15, 25),))]
             maxpos = 3
+        # small, adversarial families first: a slow machine never loses them.  They run on a fresh copy of
+        # the module each ('fresh' / sessions), so the first failing input found reproduces on its own.
+        for c in self.hygiene_cases():
+            yield dict(c, fresh=1)
+        for c in self.spelling_cases():
+            yield dict(c, fresh=1)
+        for c in self.session_cases(rng):
+            yield c
         i = rng.randrange(64)
         for sig in self.base_sigs(maxpos, kwo_cfgs):
             for inj, exp in self.plans(sig):
@@ -309,8 +349,6 @@ class C13(Property):
                         c['twice'] = 1                      # the same request was made before
                     c['calls'] = calls
                     yield c
-        for c in self.hygiene_cases():
-            yield c
         for c in self.history_cases(rng, 2 if self.thorough else 1):
             yield c
         n_rand = 20000 if self.thorough else 1500
@@ -318,6 +356,151 @@ class C13(Property):
             yield self.random_case(rng, big=(j % 4 == 0))
             if j % 3 == 0:
                 yield self.random_history(rng, big=(j % 12 == 0))
+            if j % 2 == 0:
+                yield self.random_session(rng, big=(j % 8 == 0))
+
+    # ------------------------------------------------------------------ sessions
+    SESSION_SIGS = [
+        {'args': [1, 12], 'defaults': [22], 'varargs': None, 'kwonly': [14, 15], 'kwdefaults': [[14, 24]], 'varkw': None},
+        {'args': [1], 'defaults': [], 'varargs': 7, 'kwonly': [15, 14], 'kwdefaults': [[15, 25], [14, 24]], 'varkw': 9},
+        {'args': [], 'defaults': [], 'varargs': None, 'kwonly': [14], 'kwdefaults': [[14, 24]], 'varkw': None},
+        {'args': [1, 12, 3], 'defaults': [22, 23], 'varargs': None, 'kwonly': [], 'kwdefaults': [], 'varkw': 9},
+        {'args': [1], 'defaults': [11], 'varargs': None, 'kwonly': [14], 'kwdefaults': [], 'varkw': None},
+        {'args': [], 'defaults': [], 'varargs': None, 'kwonly': [], 'kwdefaults': [], 'varkw': None},
+        {'args': [1, 12], 'defaults': [], 'varargs': 7, 'kwonly': [], 'kwdefaults': [], 'varkw': None},
+    ]
+
+    def session_calls(self, sig, extra=()):
+        """a handful of call shapes with accepted and rejected ones for the signature and its neighbours"""
+        args, kwo = sig['args'], sig['kwonly']
+        nreq = len(args) - len(sig['defaults'])
+        kwd = {k for k, _d in sig['kwdefaults']}
+        req_kw = [[k, 110 + k] for k in kwo if k not in kwd]
+        calls = [[[], []],
+                 [[100 + j for j in range(len(args))], req_kw],
+                 [[], [[n, 110 + n] for n in args + kwo]],
+                 [[100 + j for j in range(nreq)], req_kw],
+                 [[100 + j for j in range(nreq)], req_kw + [[8, 118]]],
+                 [[100 + j for j in range(len(args) + 1)], req_kw],
+                 [[100 + j for j in range(nreq)], [[k, 110 + k] for k in kwo]]]
+        for z in extra:
+            calls.append([[100 + j for j in range(nreq)], req_kw + [[z, 110 + z]]])
+        out = []
+        for c in calls:
+            if c not in out:
+                out.append(c)
+        return out
+
+    def session_alphabet(self, sig, t, full=True):
+        """requests aimed at F[t]"""
+        names = sig['args'] + sig['kwonly']
+        alpha = [['w', t, [], [], [1, 0], 0]]
+        alpha += [['w', t, [n], [], [1, 0], 0] for n in names]
+        alpha += [['w', t, [], [[6, None]], [1, 0], 0], ['w', t, [], [[6, 41]], [1, 0], 0]]
+        alpha += [['b', t, [['r', n]]] for n in sig['kwonly'] + sig['args'][-1:]]
+        alpha += [['b', t, [['k', 8, 42]]], ['b', t, [['k', 8, None]]]]
+        if full:
+            alpha += [['w', t, [6], [], [1, 0], 0], ['w', t, [], [], [1, 1], 0], ['b', t, [['a', 6, None]]], ['b', t, []]]
+            if sig['kwonly']:
+                k = sig['kwonly'][0]
+                alpha += [['b', t, [['r', k], ['k', k, 43]]], ['w', t, [k], [[k, 44]], [1, 0], 0]]
+            # requests that raise AFTER the builder has been edited (MissingArgument / ExistingArgument / SyntaxError)
+            last = (sig['kwonly'] + sig['args'])[:1]
+            alpha += [['w', t, last + [6], [], [0, 0], 0], ['w', t, last, [[6, 41], [6, None]], [1, 0], 0],
+                      ['b', t, [['r', n] for n in last] + [['k', 8, 42], ['r', 6]]]]
+        return alpha
+
+    def session_case(self, sig, i, steps, sib=None, extra=()):
+        c = self.decorate(sig, i)
+        c['session'] = [list(s) for s in steps]
+        for j, s in enumerate(c['session']):
+            if s[0] == 'w':
+                s[5] = (i + len(s[2]) + 2 * len(s[3])) % 6   # the spelling rotates; equal requests of a session are spelled alike
+        if sib is not None:
+            c['sib'] = dict(sib, doc=c['doc']) if i % 2 else sib     # same docstring: the code objects are EQUAL
+        c['calls'] = self.session_calls(sig, extra)
+        return c
+
+    def session_cases(self, rng, quick=True):
+        """the same function (and what was built from it) used several times in one process"""
+        i = rng.randrange(64)
+        for sig in self.SESSION_SIGS:
+            # (1) every ordered pair of requests on the same function, then a plain wraps of it
+            alpha = self.session_alphabet(sig, 0)
+            for x in alpha:
+                for y in alpha:
+                    i += 1
+                    yield self.session_case(sig, i, [x, y, ['w', 0, [], [], [1, 0], 0] + ([1] if i % 4 == 0 else [])], extra=(6,))
+            # (2) chains, and in-place edits by the user of what was built
+            edit_names = sig['kwonly'] + sig['args'][-1:] + [8]
+            edits = [[kind, 1, n, v] for n in edit_names for kind, v in (('k', 77), ('k', None), ('n', 88), ('n', None))]
+            small = self.session_alphabet(sig, 1, full=False)
+            for x in self.session_alphabet(sig, 0, full=False):
+                for q, y in enumerate(small):
+                    i += 1
+                    e1 = edits[(i + q) % len(edits)]
+                    e2 = [edits[(i * 7 + q) % len(edits)][0], 2] + edits[(i * 7 + q) % len(edits)][2:]
+                    # F[1] = x(F[0]); F[2] = y(F[1]); edit F[1]; F[3] = wraps(F[0]); F[4] = wraps(F[1]); edit F[2]; F[5] = wraps(F[2])
+                    yield self.session_case(sig, i, [x, y, e1, ['w', 0, [], [], [1, 0], 0], ['w', 1, [], [], [1, 0], 0], e2,
+                                                     ['w', 2, [], [], [1, 0], 0]], extra=(6,))
+                    if q % 3 == 0:      # the edit comes first: what is built afterwards sees the edited function
+                        yield self.session_case(sig, i, [x, e1, y, ['w', 1, [], [], [1, 0], 0], ['w', 0, [], [], [1, 0], 0]], extra=(6,))
+            # (3) a sibling: same name, same parameter names, other defaults / annotations / docstring
+            sib = {'defaults': [60 + a for a in sig['args'][1:]] if len(sig['args']) > 1 else [],
+                   'kwdefaults': [[k, 70 + k] for k in sig['kwonly'][-1:]],
+                   'ann': [[n, 50 + n] for n in (sig['args'] + sig['kwonly'])[:2]], 'ret': None if i % 2 else 59,
+                   'doc': 6 if i % 3 else None, 'module': 2 if i % 2 else 3}
+            a0 = self.session_alphabet(sig, 0, full=False)
+            a1 = self.session_alphabet(sig, 1, full=False)
+            for x in a0:
+                for y in a1:
+                    i += 1
+                    order = [[x, y], [y, x]][i % 2]
+                    yield self.session_case(sig, i, order + [['w', 0, [], [], [1, 0], 0], ['w', 1, [], [], [1, 0], 0],
+                                                             ['w', 2, [], [], [1, 0], 0]], sib=sib, extra=(6,))
+
+    def random_session(self, rng, big=False):
+        c = self.random_case(rng, big)
+        for key in ('injected', 'expected', 'opts', 'form', 'stack', 'twice'):
+            c.pop(key, None)
+        args, kwonly = c['args'], c['kwonly']
+        taken = set(args + kwonly + [n for n in (c['varargs'], c['varkw']) if n is not None])
+        fresh = [n for n in range(1, 34) if n not in taken][:4]
+        if rng.random() < 0.3 and c.get('fname', 0) != 3:
+            nd = rng.randint(0, len(args))
+            c['sib'] = {'defaults': [60 + a for a in args[len(args) - nd:]],
+                        'kwdefaults': [[k, 70 + k] for k in kwonly if rng.random() < 0.5],
+                        'ann': [[n, 50 + n] for n in args + kwonly if rng.random() < 0.3], 'ret': rng.choice([None, 59]),
+                        'doc': rng.choice([None, 6, c['doc']]), 'module': rng.choice([None, 2, 3])}
+        nbase = 2 if c.get('sib') else 1
+        nfun = nbase
+        steps = []
+        for _ in range(rng.randint(2, 7)):
+            t = rng.randrange(nfun) if rng.random() < 0.9 else nfun + 1
+            q = rng.random()
+            if q < 0.3:
+                steps.append(['w', t, [], [], [1, 1 if rng.random() < 0.15 else 0], rng.randrange(6)])
+                nfun += 1
+            elif q < 0.6:
+                inj = [rng.choice(args + kwonly + fresh[:1]) for _ in range(rng.randint(0, 2))] if args + kwonly else []
+                exp = [[rng.choice(fresh), rng.choice([None, 90])] for _ in range(rng.randint(0, 1 if inj else 2))]
+                steps.append(['w', t, inj, exp, [0 if rng.random() < 0.15 else 1, 0], rng.randrange(6)])
+                nfun += 1
+            elif q < 0.8:
+                ops = []
+                for _ in range(rng.randint(0, 3)):
+                    if rng.random() < 0.5 and args + kwonly:
+                        ops.append(['r', rng.choice(args + kwonly)])
+                    else:
+                        ops.append([rng.choice('akk'), rng.choice(fresh + kwonly[:1]), rng.choice([None, 91])])
+                steps.append(['b', t, ops])
+                nfun += 1
+            elif nfun > nbase:
+                t = rng.randrange(nbase, nfun)
+                steps.append([rng.choice('kn'), t, rng.choice(args + kwonly + fresh[:1]), rng.choice([None, 77, 200])])
+        c['session'] = steps
+        c['calls'] = c['calls'][:8]
+        return c
 
     def history_cases(self, rng, maxkwo):
         """FunctionBuilder histories: every op sequence of length <= 2 over a small alphabet, small signatures"""
@@ -393,6 +576,23 @@ class C13(Property):
                                                   inj)
                     yield c
 
+    def spelling_cases(self):
+        """every documented spelling of injected / expected x every special default value (None, falsy,
+        always-equal, no truth value): a value- or spelling-sensitive slip in the request parser shows early"""
+        sigs = [{'args': [1, 12], 'defaults': [22], 'varargs': None, 'kwonly': [14], 'kwdefaults': [[14, 24]], 'varkw': None},
+                {'args': [], 'defaults': [], 'varargs': 7, 'kwonly': [], 'kwdefaults': [], 'varkw': 9}]
+        i = 0
+        for sig in sigs:
+            for form in range(6):
+                for d in sorted(SPECIAL_VALUES) + [41]:
+                    for inj, exp in (([], [[6, d]]), ([sig['args'][0]] if sig['args'] else [6], [[6, d]]),
+                                     ([], [[6, None], [16, d]]), ([], [[16, d], [6, d]])):
+                        i += 1
+                        c = self.decorate(sig, i % 32)
+                        c.update(injected=inj, expected=exp, opts=[1, 0], form=form)
+                        c['calls'] = self.session_calls(sig, extra=(6, 16))
+                        yield c
+
     def deep_cases(self, budget_s):
         rng = self.rng
         kwo_cfgs = [((), ()), ((14,), ()), ((14,), ((14, 24),)), ((15, 14), ((15, 25),)), ((15, 14), ((14, 24),))]
@@ -405,16 +605,19 @@ class C13(Property):
                 c['calls'] = self.call_shapes(sig, [z for z, _ in exp if z not in sig['args'] + sig['kwonly']],
                                               [x for x in inj if x not in [z for z, _ in exp]])
                 yield c
+        for c in self.session_cases(rng):
+            yield c
         while True:
             yield self.random_case(rng, big=rng.random() < 0.5)
             yield self.random_history(rng, big=rng.random() < 0.5)
+            yield self.random_session(rng, big=rng.random() < 0.5)
 
     def random_case(self, rng, big=False):
         npos = rng.randint(0, 6 if big else 3)
         nkwo = rng.randint(0, 4 if big else 2)
         pool = list(range(1, 30))
         if rng.random() < 0.1:
-            pool += [89, 90, 91, 92, 93, 94, 95, 96, 97, 98, 99]
+            pool += [86, 87, 88, 89, 90, 91, 92, 93, 94, 95, 96, 97, 98, 99]
         rng.shuffle(pool)
         args = pool[:npos]
         kwonly = pool[npos:npos + nkwo]
@@ -484,6 +687,26 @@ class C13(Property):
 
         def on(x):
             return '-' if x is None else str(x)
+
+        def ops_txt(ops):
+            return ','.join(('r%d' % op[1]) if op[0] == 'r' else '%s%d:%s' % (op[0], op[1], on(op[2])) for op in ops) or '-'
+        if 'session' in case:
+            sib = case.get('sib')
+            toks = ['W', nl(case['args']), nl(case['defaults']), on(case['varargs']), nl(case['kwonly']),
+                    prs(case['kwdefaults']), on(case['varkw']), prs(case['ann']), on(case['ret']),
+                    str(case['async']), on(case['doc']), on(case['module']),
+                    ';'.join([nl(sib['defaults']), prs(sib['kwdefaults']), prs(sib['ann']), on(sib['ret']),
+                              on(sib['doc']), on(sib['module'])]) if sib else '-']
+            for st in case['session']:
+                if st[0] == 'w':
+                    toks.append('w%d|%s|%s|%d%d' % (st[1], nl(st[2]), prs(st[3]), st[4][0], st[4][1]))
+                elif st[0] == 'b':
+                    toks.append('b%d|%s' % (st[1], ops_txt(st[2])))
+                else:
+                    toks.append('%s%d|%d|%s' % (st[0], st[1], st[2], on(st[3])))
+            for pos, kws in case['calls']:
+                toks.append('%s/%s' % (nl(pos), prs(kws)))
+            return ' '.join(toks)
         if 'ops' in case:
             ops = ','.join(('r%d' % op[1]) if op[0] == 'r' else '%s%d:%s' % (op[0], op[1], on(op[2]))
                            for op in case['ops']) or '-'
@@ -502,12 +725,12 @@ class C13(Property):
         return ' '.join(toks)
 
     # ------------------------------------------------------------------ implementation
-    def spell(self, case):
+    def spell(self, case, injected=None, expected=None, form=None):
         """how injected / expected are passed (all spellings the API documents)"""
-        from boltons.funcutils import NO_DEFAULT
-        form = case.get('form', 0)
-        inj = [pn(x) for x in case['injected']]
-        exp = case['expected']
+        NO_DEFAULT = self._fu.NO_DEFAULT
+        form = case.get('form', 0) if form is None else form
+        inj = [pn(x) for x in (case['injected'] if injected is None else injected)]
+        exp = case['expected'] if expected is None else expected
         vals = self._vals
         if form == 1 and len(inj) == 1:
             inj_arg = inj[0]
@@ -531,9 +754,29 @@ class C13(Property):
             exp_arg = [pn(z) if d is None else (pn(z), vals[d]) for z, d in exp] if exp else None
         return inj_arg, exp_arg
 
+    _fu_code = None
+
+    def fresh_funcutils(self):
+        """a NEW copy of the boltons.funcutils module (its source executed again): whatever the library
+        remembers between uses (module / class level state) starts empty, so a session case depends on
+        nothing that ran before it and its replay reproduces"""
+        import types
+        from boltons import funcutils
+        if C13._fu_code is None:
+            with open(funcutils.__file__) as fh:
+                C13._fu_code = compile(fh.read(), funcutils.__file__, 'exec')
+        m = types.ModuleType('boltons.funcutils')
+        m.__file__ = funcutils.__file__
+        m.__package__ = 'boltons'
+        exec(C13._fu_code, m.__dict__)
+        return m
+
     def impl(self, case):
         from boltons import funcutils
         try:
+            if 'session' in case or case.get('fresh'):
+                funcutils = self.fresh_funcutils()
+            self._fu = funcutils
             with time_limit(10):
                 return self._impl(case, funcutils)
         except CaseTimeout:
@@ -543,7 +786,10 @@ class C13(Property):
 
     def _impl(self, case, funcutils):
         self._vals = vals = CURRENT[0] = Vals()
+        LINE_OFFSET[0] = (LINE_OFFSET[0] + 1) % 2000
         is_async = bool(case['async'])
+        if 'session' in case:
+            return self._impl_session(case, funcutils, vals, is_async)
         history = 'ops' in case
         plain = not history and not case['injected'] and not case['expected']
         ns = {'D': vals, 'A': vals}
@@ -568,9 +814,11 @@ class C13(Property):
         elif is_async:
             async def wrapper(*a, **k):
                 rec.append((a, k))
+                return vals[RET]
         else:
             def wrapper(*a, **k):
                 rec.append((a, k))
+                return vals[RET]
         obs = {'fsig': dump_sig(fn_ref), 'fmeta': [fn_ref.__name__, fn_ref.__doc__, fn_ref.__module__],
                'fasync': int(inspect.iscoroutinefunction(fn_ref))}
         self._fn_ref = fn_ref
@@ -665,6 +913,7 @@ class C13(Property):
         src = getattr(w, '__source__', None)
         obs['source'] = src if isinstance(src, str) else None
         outs = []
+        wsig = None if plain else self.own_sig(w)
         for pos, kws in case['calls']:
             a = [vals[v] for v in pos]
             k = {pn(n): vals[v] for n, v in kws}
@@ -677,9 +926,13 @@ class C13(Property):
             except Exception as e:
                 o['direct'] = {'exc': exc_name(e)}
             del rec[:]
+            if not plain:
+                o['own'] = self.own_bind(wsig, a, k)
             try:
                 res = drive(w(*a, **k), is_async)
                 o['via'] = dump_locals(res, case) if plain else None
+                if not plain:
+                    o['ret'] = vnum(res)
             except TypeError:
                 o['via'] = 'TypeError'
             except Exception as e:
@@ -695,6 +948,249 @@ class C13(Property):
         obs['fsig_after'] = dump_sig(fn)
         return obs
 
+    @staticmethod
+    def own_sig(w):
+        """the function's OWN signature object (follow_wrapped=False - what a call is really checked against)"""
+        try:
+            return inspect.signature(w, follow_wrapped=False)
+        except Exception:  # noqa
+            return None
+
+    @staticmethod
+    def own_bind(sig, a, k):
+        """does that signature bind this call?  'ok' / 'TypeError' / '?...'"""
+        if sig is None:
+            return '?nosig'
+        try:
+            sig.bind(*a, **k)
+            return 'ok'
+        except TypeError:
+            return 'TypeError'
+        except Exception as e:  # noqa
+            return '?' + exc_name(e)
+
+    # ------------------------------------------------------------------ sessions: several uses in one process
+    @staticmethod
+    def snap(x, F):
+        """what the public API shows of one function right now"""
+        if hasattr(x, '__wrapped__'):
+            below = [i + 1 for i, y in enumerate(F) if y is x.__wrapped__]
+            wr = below[0] if below else '?'
+        else:
+            wr = None
+        return {'sig': dump_sig(x), 'meta': [getattr(x, '__name__', None), getattr(x, '__doc__', None),
+                                             getattr(x, '__module__', None)],
+                'wrapped': wr, 'async': int(inspect.iscoroutinefunction(x))}
+
+    def _impl_session(self, case, funcutils, vals, is_async):
+        def define(desc):
+            ns = {'D': vals, 'A': vals}
+            if desc['module'] is not None:
+                ns['__name__'] = 'mod%d' % desc['module']
+            ns2 = dict(ns)
+            exec(source_of(desc), ns)
+            exec(source_of(desc), ns2)
+            key = 'fn' if desc.get('fname', 0) == 3 else FNAMES[desc.get('fname', 0)]
+            return ns[key], ns2[key]
+        fn, fn_ref = define(case)
+        F, twins = [fn], [fn_ref]           # twins: pristine copies never shown to boltons
+        if case.get('sib'):
+            sn, sn_ref = define(dict(case, **case['sib']))
+            F.append(sn)
+            twins.append(sn_ref)
+        nbase = len(F)
+        root = list(range(nbase))           # which user-defined function each function descends from
+        recs = [None] * nbase               # one recorder per built function
+
+        def recorder(rec):
+            if is_async:
+                async def wrapper(*a, **k):
+                    rec.append((a, k))
+                    return vals[RET]
+            else:
+                def wrapper(*a, **k):
+                    rec.append((a, k))
+                    return vals[RET]
+            return wrapper
+        spelled = {}                        # the user passes the SAME list / tuple / dict object for the same request
+        last = [None, None]                 # the user's wrapper of the previous wraps step (share=1 reuses it)
+        obs = {'base': [self.snap(x, twins) for x in twins], 'snaps': [[self.snap(x, F) for x in F]], 'results': []}
+        for st in case['session']:
+            kind, t = st[0], st[1]
+            if t >= len(F):
+                res = 'skip'
+            elif kind == 'w':
+                _k, _t, inj, exp, opts, form = st[:6]
+                skey = json.dumps([inj, exp, form])
+                if form in (4, 5) or skey not in spelled:     # (iterators are consumed: new ones each time)
+                    spelled[skey] = self.spell(case, inj, exp, form)
+                inj_arg, exp_arg = spelled[skey]
+                kw = {}
+                if not opts[0]:
+                    kw['inject_to_varkw'] = False
+                if opts[1]:
+                    kw['hide_wrapped'] = True
+                if len(st) > 6 and st[6] and last[0] is not None:
+                    rec, user_wrapper = last        # one user wrapper decorating several functions
+                else:
+                    rec = []
+                    user_wrapper = recorder(rec)
+                    last[:] = [rec, user_wrapper]
+                try:
+                    if form == 3:
+                        w = funcutils.update_wrapper(user_wrapper, F[t], injected=inj_arg, expected=exp_arg, **kw)
+                    else:
+                        w = funcutils.wraps(F[t], injected=inj_arg, expected=exp_arg, **kw)(user_wrapper)
+                    F.append(w)
+                    recs.append(rec)
+                    root.append(root[t])
+                    res = 'built'
+                except Exception as e:
+                    res = {'exc': exc_name(e)}
+            elif kind == 'b':
+                rec = []
+                try:
+                    fb = funcutils.FunctionBuilder.from_func(F[t])
+                    for op in st[2]:
+                        if op[0] == 'r':
+                            fb.remove_arg(pn(op[1]))
+                        elif op[2] is None:
+                            fb.add_arg(pn(op[1]), **({'kwonly': True} if op[0] == 'k' else {}))
+                        else:
+                            fb.add_arg(pn(op[1]), vals[op[2]], **({'kwonly': True} if op[0] == 'k' else {}))
+                    fb.body = 'return %s_hcall_(%s)' % ('await ' if fb.is_async else '', fb.get_invocation_str())
+                    w = fb.get_func(execdict={'_hcall_': recorder(rec)})
+                    F.append(w)
+                    recs.append(rec)
+                    root.append(root[t])
+                    res = 'built'
+                except Exception as e:
+                    res = {'exc': exc_name(e)}
+            else:                           # the user edits a dict of F[t] in place
+                _k, _t, name, val = st
+                attr = '__kwdefaults__' if kind == 'k' else '__annotations__'
+                d = getattr(F[t], attr)
+                if d is None:
+                    d = {}
+                    setattr(F[t], attr, d)
+                if val is None:
+                    d.pop(pn(name), None)
+                else:
+                    d[pn(name)] = vals[val]
+                res = 'edited'
+            obs['results'].append(res)
+            obs['snaps'].append([self.snap(x, F) for x in F])
+        obs['root'] = root
+        # calls: every built function, at the end of the session
+        allrecs = list({id(r): r for r in recs if r is not None}.values())
+        outs = []
+        for j in range(nbase, len(F)):
+            w, rec, ref = F[j], recs[j], twins[root[j]]
+            wsig = self.own_sig(w)
+            row = []
+            for pos, kws in case['calls']:
+                a = [vals[v] for v in pos]
+                k = {pn(n): vals[v] for n, v in kws}
+                o = {'own': self.own_bind(wsig, a, k)}
+                try:
+                    o['direct'] = dump_locals(drive(ref(*a, **k), is_async), case)
+                except TypeError:
+                    o['direct'] = 'TypeError'
+                except Exception as e:
+                    o['direct'] = {'exc': exc_name(e)}
+                for r in allrecs:
+                    del r[:]
+                try:
+                    o['ret'] = vnum(drive(w(*a, **k), is_async))
+                    o['via'] = None
+                except TypeError:
+                    o['via'] = 'TypeError'
+                except Exception as e:
+                    o['via'] = {'exc': exc_name(e)}
+                o['nrecv'] = len(rec)
+                o['foreign'] = sum(len(r) for r in allrecs) - len(rec)
+                if rec:
+                    ra, rk = rec[0]
+                    o['recv'] = [[vnum(x) for x in ra], [[str(kk), vnum(x)] for kk, x in rk.items()]]
+                    try:        # what the user-defined function at the root binds when handed what was received
+                        o['rebound'] = dump_locals(drive(ref(*ra, **rk), is_async), case)
+                    except TypeError:
+                        o['rebound'] = 'TypeError'
+                    except Exception as e:
+                        o['rebound'] = {'exc': exc_name(e)}
+                else:
+                    o['recv'] = None
+                row.append(o)
+            outs.append(row)
+        obs['calls'] = outs
+        return obs
+
+    def render_session(self, case, obs):
+        def res_txt(r):
+            return {'built': 'b', 'skip': 's', 'edited': 'm'}.get(r) if isinstance(r, str) else 'e%s' % r['exc']
+        final = obs['snaps'][-1]
+        nbase = len(obs['base'])
+        blocks = [','.join(res_txt(r) for r in obs['results']) or '-']
+        for j, sn in enumerate(final):
+            if 'exc' in sn['sig']:
+                blocks.append('sigerr %s' % sn['sig']['exc'])
+                continue
+            txt = 'S %s ; M %s ; A %s' % (self.sig_text(sn['sig']),
+                                          self.meta_text(case, sn['meta'], sn['wrapped'], sn['async']),
+                                          self.anns_text(sn['sig']))
+            if j >= nbase:
+                outs = []
+                for o in obs['calls'][j - nbase]:
+                    if o['recv'] is None:
+                        t = 'E' if o['via'] == 'TypeError' else '!%s' % (o['via'],)
+                    else:
+                        ra, rk = o['recv']
+                        t = 'R%s/%s' % (','.join(map(str, ra)) or '-', self.kw_text(rk))
+                        if o['nrecv'] != 1:
+                            t += '#%d' % o['nrecv']
+                        if o['via'] is not None:
+                            t += '=!%s' % (o['via'],)
+                    if o['foreign']:
+                        t += '!foreign%d' % o['foreign']
+                    outs.append(t)
+                txt += ' ; C %s' % ','.join(outs)
+            blocks.append(txt)
+        return ' || '.join(blocks)
+
+    def sig_text(self, ws):
+        num = self._num
+
+        def params(kind):
+            return [num(name) + ('' if d is None else '=%s' % d) for name, k, d, _a in ws['params'] if k == kind]
+        va, vk = params('va'), params('vk')
+        sig = '%s *%s %s **%s' % (','.join(params('pk')) or '-', va[0] if va else '-',
+                                  ','.join(params('ko')) or '-', vk[0] if vk else '-')
+        if [p for p in ws['params'] if p[1] == 'po']:
+            sig += ' posonly!'
+        return sig
+
+    def anns_text(self, ws):
+        anns = ','.join('%s:%s' % (self._num(p[0]), '-' if p[3] is None else p[3]) for p in ws['params'])
+        return anns + ' r:%s' % ('-' if ws['ret'] is None else ws['ret'])
+
+    @staticmethod
+    def meta_text(case, meta, wrapped, wasync):
+        name, doc, module = meta
+        nm = '1' if name == FNAMES[case.get('fname', 0)] else '?%s' % name
+        if doc is None:
+            dc = '-'
+        elif isinstance(doc, str) and doc[:3] == 'doc' and doc[3:].isdigit():
+            dc = doc[3:]
+        else:
+            dc = '?%r' % (doc,)
+        if module is None:
+            md = '-'
+        elif isinstance(module, str) and module[:3] == 'mod' and module[3:].isdigit():
+            md = module[3:]
+        else:
+            md = '?%r' % (module,)
+        return '%s %s %s %s %d' % (nm, dc, md, '-' if wrapped is None else str(wrapped), wasync)
+
     # ------------------------------------------------------------------ canonical text (same as the driver's)
     @staticmethod
     def _num(name):
@@ -706,6 +1202,8 @@ class C13(Property):
         hist = 'ops' in case
         if 'exc' in obs and not (hist and obs.get('stage') == 'get_func'):
             return 'err %s' % obs['exc']
+        if 'session' in case:
+            return self.render_session(case, obs)
         if hist:
             hdr = self.fb_header(obs['fb'])
             if 'exc' in obs:
@@ -839,6 +1337,8 @@ class C13(Property):
         self._nt = False
         if obs.get('stage') == 'case':
             return Failure('harness', 'case could not be run: %s %s' % (obs['exc'], obs.get('msg')))
+        if 'session' in case:
+            return self.oracle_session(case, obs)
         hist = 'ops' in case
         inj, exp = ([], []) if hist else (case['injected'], case['expected'])
         plain = not hist and not inj and not exp
@@ -847,24 +1347,12 @@ class C13(Property):
             return Failure('harness', 'inspect.signature failed on the wrapped function itself')
         # which outcome does the request call for?  (simulated on names only)
         if hist:
-            steps = [('r', op[1], None, None) if op[0] == 'r' else ('a', op[1], op[2], op[0] == 'k') for op in case['ops']]
+            steps = [('r', pn(op[1]), None, None) if op[0] == 'r' else ('a', pn(op[1]), op[2], op[0] == 'k') for op in case['ops']]
         else:
-            steps = [('r', x, None, None) for x in inj] + [('a', z, d, None) for z, d in exp]
-        state = {n: 'orig' for n in case['args'] + case['kwonly']}
-        others = {case['varargs'], case['varkw']} - {None}
-        must_succeed = True
-        for kind, n, d, kwonly in steps:
-            if kind == 'r':
-                if n in state:
-                    del state[n]
-                elif not hist and case['varkw'] is not None and case['opts'][0]:
-                    pass                      # "keyword arg will be caught by the varkw"
-                else:
-                    must_succeed = False      # MissingArgument is the documented outcome
-            else:
-                if n in state or n in others:
-                    must_succeed = False      # ExistingArgument / duplicate name in the def
-                state[n] = ('new', d, kwonly)
+            steps = [('r', pn(x), None, None) for x in inj] + [('a', pn(z), d, None) for z, d in exp]
+        state, must_succeed = self.simulate(steps, [pn(n) for n in case['args'] + case['kwonly']],
+                                            {pn(n) for n in (case['varargs'], case['varkw']) if n is not None},
+                                            not hist and case['varkw'] is not None and case['opts'][0])
         if 'exc' in obs:
             st['wraps_exc_' + obs['exc']] = st.get('wraps_exc_' + obs['exc'], 0) + 1
             if must_succeed:
@@ -919,6 +1407,9 @@ class C13(Property):
                 else:
                     rej += 1
             else:
+                f = self.own_sig_call(o, (pos, kws))
+                if f is not None:
+                    return f
                 if v == 'TypeError':
                     rej += 1
                 else:
@@ -928,6 +1419,183 @@ class C13(Property):
         mode = 'plain' if plain else ('history' if hist else 'modified')
         st[mode] = st.get(mode, 0) + 1
         self._nt = (acc > 0 and rej > 0) or not plain
+        return None
+
+    def oracle_session(self, case, obs):
+        """several uses in one process.  Step by step: (1) a request changes NO function that existed before -
+        neither the wrapped function nor anything built earlier - except the one function an in-place edit by
+        the user is aimed at (functions built FROM the edited one are exempt: the statement does not say whether
+        they follow); (2) the function a request builds relates to its target, as the target is at that moment,
+        exactly as the statement says (same demands as for a single use).  At the end: every built function obeys
+        its own signature and calls its own user wrapper; a chain of plain wraps down to a user-defined function
+        accepts the calls that function accepts and hands it the same bound arguments."""
+        st = self.stats
+        steps, snaps, results = case['session'], obs['snaps'], obs['results']
+        nbase = len(obs['base'])
+        if snaps[0] != obs['base']:
+            return Failure('harness', 'the twins of the user-defined functions differ from them before anything was done')
+        parent = {}                # built function -> its target
+        edited = set()
+        plain_chain = set(range(nbase))
+        built = 0
+        for i, stp in enumerate(steps):
+            before, after, res = snaps[i], snaps[i + 1], results[i]
+            kind, t = stp[0], stp[1]
+            if res == 'skip':
+                continue
+            exempt = set()
+            if kind in 'kn':
+                edited.add(t)
+                exempt = {t} | {j for j in range(len(before)) if self.descends(j, t, parent)}
+            for j in range(len(before)):
+                if j not in exempt and after[j] != before[j]:
+                    what = 'the wrapped function' if j < nbase else 'the function built by step %d' % (
+                        [k for k in range(i) if results[k] == 'built'][j - nbase] + 1)
+                    tag = 'wrapped_changed' if j < nbase else 'interference'
+                    return Failure(tag, 'step %d %r changed %s (F[%d]): %r, was %r' % (i + 1, stp, what, j, after[j], before[j]))
+            if kind in 'kn':
+                continue
+            tgt = before[t]
+            tparams = tgt['sig'].get('params')
+            if tparams is None:
+                continue
+            names = [p[0] for p in tparams if p[1] in ('pk', 'ko')]
+            others = {p[0] for p in tparams if p[1] in ('va', 'vk')}
+            has_vk = any(p[1] == 'vk' for p in tparams)
+            if kind == 'w':
+                inj, exp, opts = stp[2], stp[3], stp[4]
+                sim = [('r', pn(x), None, None) for x in inj] + [('a', pn(z), d, None) for z, d in exp]
+                missing_ok = has_vk and bool(opts[0])
+                plain = not inj and not exp
+            else:
+                sim = [('r', pn(op[1]), None, None) if op[0] == 'r' else ('a', pn(op[1]), op[2], op[0] == 'k') for op in stp[2]]
+                missing_ok = False
+                plain = False
+            state, must_succeed = self.simulate(sim, names, others, missing_ok)
+            if res != 'built':
+                st['wraps_exc_' + res['exc']] = st.get('wraps_exc_' + res['exc'], 0) + 1
+                if must_succeed:
+                    return Failure('wraps_raises', 'step %d %r raised %s on a valid request (target signature %r)'
+                                   % (i + 1, stp, res['exc'], tparams))
+                continue
+            j = len(after) - 1
+            parent[j] = t
+            built += 1
+            if plain and t in plain_chain:
+                plain_chain.add(j)
+            if not must_succeed:
+                continue
+            new = after[j]
+            ws = new['sig']
+            if 'exc' in ws:
+                return Failure('signature', 'step %d: inspect.signature(built function) raised %s' % (i + 1, ws['exc']))
+            if new['meta'] != tgt['meta']:
+                tag = 'doc' if new['meta'][0] == tgt['meta'][0] and new['meta'][2] == tgt['meta'][2] else 'meta'
+                return Failure(tag, 'step %d %r: (__name__, __doc__, __module__) = %r, wrapped function has %r'
+                               % (i + 1, stp, new['meta'], tgt['meta']))
+            if kind == 'w' and not stp[4][1] and new['wrapped'] != t + 1:
+                return Failure('wrapped', 'step %d %r: __wrapped__ does not point at the wrapped function' % (i + 1, stp))
+            if new['async'] != tgt['async']:
+                return Failure('async', 'step %d: iscoroutinefunction %s, wrapped function %s' % (i + 1, new['async'], tgt['async']))
+            if ws['ret'] != tgt['sig']['ret']:
+                return Failure('signature', 'step %d: return annotation %r, wrapped function has %r' % (i + 1, ws['ret'], tgt['sig']['ret']))
+            if plain:
+                if self.canon(ws['params']) != self.canon(tparams):
+                    return Failure('signature', 'step %d %r: signature %r differs from the wrapped function\'s %r'
+                                   % (i + 1, stp, ws['params'], tparams))
+            else:
+                f = self.sig_delta(state, tparams, ws['params'])
+                if f is not None:
+                    f.what = 'step %d %r: %s' % (i + 1, stp, f.what)
+                    return f
+        # --- calls, at the end of the session
+        acc = rej = 0
+        final = snaps[-1]
+        for j in range(nbase, len(final)):
+            who = 'the function built by step %d' % ([k for k in range(len(steps)) if results[k] == 'built'][j - nbase] + 1)
+            chain = j in plain_chain and not any(x == j or self.descends(j, x, parent) for x in edited)
+            for (pos, kws), o in zip(case['calls'], obs['calls'][j - nbase]):
+                f = self.own_sig_call(o, (pos, kws), who)
+                if f is not None:
+                    return f
+                if o['via'] == 'TypeError':
+                    rej += 1
+                else:
+                    acc += 1
+                if chain:
+                    d = o['direct']
+                    if (d == 'TypeError') != (o['via'] == 'TypeError'):
+                        return Failure('accepts', 'call %r: wrapped function %s, %s (plain wraps all the way down) %s' % (
+                            (pos, kws), 'raises TypeError' if d == 'TypeError' else 'accepts', who,
+                            'raises TypeError' if o['via'] == 'TypeError' else 'accepts'))
+                    if d != 'TypeError' and not self.same_bound(d, o.get('rebound')):
+                        return Failure('forwarding', 'call %r through %s: the wrapped function binds %r from what the user\'s '
+                                       'wrapper received, %r directly' % ((pos, kws), who, o.get('rebound'), d))
+        st['calls_accepted'] = st.get('calls_accepted', 0) + acc
+        st['calls_rejected'] = st.get('calls_rejected', 0) + rej
+        st['session'] = st.get('session', 0) + 1
+        st['session_built'] = st.get('session_built', 0) + built
+        self._nt = built >= 2 or (built >= 1 and len(steps) >= 2)
+        return None
+
+    @staticmethod
+    def descends(j, t, parent):
+        """was F[j] built from F[t], directly or through other built functions?"""
+        while j in parent:
+            j = parent[j]
+            if j == t:
+                return True
+        return False
+
+    @staticmethod
+    def simulate(steps, names, others, missing_ok):
+        """the request replayed on parameter NAMES only: (state: name -> 'orig' | ('new', default, kwonly),
+        whether the request is one the statement makes a promise about).  A missing name to remove
+        (MissingArgument unless **kw catches it) or a name to add that exists / clashes with *args, **kw
+        (ExistingArgument / duplicate name in the def) is a caller error."""
+        state = {n: 'orig' for n in names}
+        must_succeed = True
+        for kind, n, d, kwonly in steps:
+            if kind == 'r':
+                if n in state:
+                    del state[n]
+                elif missing_ok:
+                    pass                      # "keyword arg will be caught by the varkw"
+                else:
+                    must_succeed = False      # MissingArgument is the documented outcome
+            else:
+                if n in state or n in others:
+                    must_succeed = False      # ExistingArgument / duplicate name in the def
+                state[n] = ('new', d, kwonly)
+        return state, must_succeed
+
+    @staticmethod
+    def own_sig_call(o, call, who='the built function'):
+        """a function the builder compiled (any injected / expected / history): a call its OWN signature
+        binds reaches the user's wrapper exactly once (and nobody else's); a call it does not bind raises
+        TypeError and reaches nobody"""
+        own, v = o.get('own'), o['via']
+        if own not in ('ok', 'TypeError'):
+            return None
+        if isinstance(v, dict) and 'exc' in v:
+            return Failure('call_raises', 'call %r raised %s' % (call, v['exc']))
+        if own == 'ok' and v == 'TypeError':
+            return Failure('own_sig_calls', 'call %r binds against the own signature of %s (inspect.signature(..., '
+                           'follow_wrapped=False).bind succeeds) but calling it raises TypeError' % (call, who))
+        if own == 'TypeError' and v != 'TypeError':
+            return Failure('own_sig_calls', 'call %r does not bind against the own signature of %s but calling it '
+                           'raises no TypeError' % (call, who))
+        n = o.get('nrecv', 1 if o.get('recv') is not None else 0)
+        if own == 'ok' and n != 1:
+            return Failure('recorder', 'call %r: the user\'s wrapper of %s was called %d times' % (call, who, n))
+        if own == 'TypeError' and n != 0:
+            return Failure('recorder', 'rejected call %r reached the user\'s wrapper of %s' % (call, who))
+        if o.get('foreign'):
+            return Failure('recorder', 'call %r of %s reached the user\'s wrapper of ANOTHER built function (%d calls)'
+                           % (call, who, o['foreign']))
+        if own == 'ok' and 'ret' in o and o['ret'] != RET:
+            return Failure('returns', 'call %r of %s does not return what the user\'s wrapper returned (got %r)'
+                           % (call, who, o['ret']))
         return None
 
     @staticmethod
@@ -946,8 +1614,8 @@ class C13(Property):
     def sig_delta(self, state, fparams, wparams):
         """removed / added parameters: the own signature changes by exactly those parameters and every
         remaining parameter keeps its kind, default, annotation and relative order"""
-        kept_names = {pn(n) for n, v in state.items() if v == 'orig'}
-        added = {pn(n): v for n, v in state.items() if v != 'orig'}
+        kept_names = {n for n, v in state.items() if v == 'orig'}
+        added = {n: v for n, v in state.items() if v != 'orig'}
         kept = [p for p in fparams if p[0] in kept_names or p[1] in ('va', 'vk')]
         wkept = [p for p in wparams if p[0] not in added]
         if self.canon(wkept) != self.canon(kept):
@@ -973,7 +1641,20 @@ class C13(Property):
         if len(calls) > 1:
             for i in range(len(calls)):
                 yield dict(case, calls=[calls[i]])
-        if 'ops' in case:
+        if 'session' in case:
+            for c in self.shrink_session(case):
+                yield c
+            if case.get('sib'):
+                return
+            used = set()
+            for st in case['session']:
+                if st[0] == 'w':
+                    used |= set(st[2]) | {z for z, _ in st[3]}
+                elif st[0] == 'b':
+                    used |= {op[1] for op in st[2]}
+                else:
+                    used.add(st[2])
+        elif 'ops' in case:
             for i in range(len(case['ops'])):
                 yield dict(case, ops=case['ops'][:i] + case['ops'][i + 1:])
             used = {op[1] for op in case['ops']}
@@ -1017,6 +1698,44 @@ class C13(Property):
                 yield dict(case, calls=[[pos[:-1], kws]])
             for i in range(len(kws)):
                 yield dict(case, calls=[[pos, kws[:i] + kws[i + 1:]]])
+
+    @staticmethod
+    def shrink_session(case):
+        steps = case['session']
+        nbase = 2 if case.get('sib') else 1
+        # which function each step builds (assuming every build succeeds; the caller re-checks the failure)
+        prod, n = {}, nbase
+        for i, st in enumerate(steps):
+            if st[0] in 'wb':
+                prod[i] = n
+                n += 1
+        for i in reversed(range(len(steps))):
+            gone = prod.get(i)
+            if gone is not None and any(st[1] == gone for st in steps[i + 1:]):
+                continue                    # something later is aimed at what this step builds
+            rest = []
+            for st in steps[:i] + steps[i + 1:]:
+                st = list(st)
+                if gone is not None and st[1] > gone:
+                    st[1] -= 1
+                rest.append(st)
+            yield dict(case, session=rest)
+        if case.get('sib') and not any(st[1] == 1 for st in steps):
+            c = dict(case, session=[[st[0], st[1] - 1 if st[1] > 1 else st[1]] + list(st[2:]) for st in steps])
+            del c['sib']
+            yield c
+        for i, st in enumerate(steps):      # simpler requests
+            if st[0] == 'w':
+                for key in (2, 3):
+                    for j in range(len(st[key])):
+                        new = list(st)
+                        new[key] = st[key][:j] + st[key][j + 1:]
+                        yield dict(case, session=steps[:i] + [new] + steps[i + 1:])
+                if st[5] or st[4] != [1, 0]:
+                    yield dict(case, session=steps[:i] + [st[:4] + [[1, 0], 0]] + steps[i + 1:])
+            elif st[0] == 'b':
+                for j in range(len(st[2])):
+                    yield dict(case, session=steps[:i] + [[st[0], st[1], st[2][:j] + st[2][j + 1:]]] + steps[i + 1:])
 
     @staticmethod
     def without(case, name, **changes):
